@@ -194,11 +194,16 @@ impl Sut for LI {
                 return None;
             }
             let ix = ix_of(len - 1).min(len - 1);
-            let op = self.delete_index(ix, actor)?;
+            let mut op = self.delete_index(ix, actor)?;
             let elem = model.remove(ix);
-            let want = sh.take_dot(actor);
+            let want = sh.take_dot_j(actor, cmd.jump);
+            if cmd.jump > 0 {
+                // fast-forward: the same delete, carrying the author's dot `jump` counters further on
+                op = list::Op::Delete { id: op.id().clone(), dot: crdts::Dot::new(want.0, want.1) };
+            }
             let od = op.dot();
             let mut g = Gen::new(op, format!("delete_index({ix}) = elem {elem}"));
+            g.jumped = cmd.jump > 0;
             g.op_dot = Some((od.actor, od.counter));
             g.facts.push(Fact::Del { elem, dot: want });
             g.want_dot = Some(want);
@@ -214,10 +219,21 @@ impl Sut for LI {
                 model.insert(ix.min(len), elem);
                 (self.insert_index(ix, elem, actor), format!("insert_index({ix}, {elem})"))
             };
-            let want = sh.take_dot(actor);
+            let want = sh.take_dot_j(actor, cmd.jump);
+            let mut op = op;
+            if cmd.jump > 0 {
+                // fast-forward: the identifier insert_index would mint between the same neighbours, tagged with
+                // the author's dot `jump` counters further on
+                let ix = if cmd.k == "append" { len } else { ix_of(len).min(len) };
+                let keys: Vec<_> = self.iter_entries().map(|(id, _)| id.clone()).collect();
+                let prev = if ix > 0 { keys.get(ix - 1) } else { None };
+                let id = crdts::Identifier::between(prev, keys.get(ix), crdts::OrdDot { actor: want.0, counter: want.1 });
+                op = list::Op::Insert { id, val: elem };
+            }
             let od = op.dot();
             let idv = op.id().value().clone();
             let mut g = Gen::new(op, desc);
+            g.jumped = cmd.jump > 0;
             g.op_dot = Some((od.actor, od.counter));
             if (idv.actor, idv.counter) != (od.actor, od.counter) {
                 // an insert's identifier must be tagged with the op's own dot
